@@ -551,8 +551,9 @@ class kLeastAbsErrors(pathmodel.AbstractPathModelDAG):
         self.check_is_solved()
 
         # sum of edge errors
+        # The model minimizes the *scaled* sum of the edge errors (see _encode_objective)
         edge_errors = self.get_solution()["edge_errors"]
-        return sum(edge_errors.values())
+        return sum(error * self.edge_error_scaling.get(edge, 1) for edge, error in edge_errors.items())
     
     def get_lowerbound_k(self):
 
